@@ -241,6 +241,14 @@ def check(ctx, p, T, m, S, stype, wit, workload, al=()):
         contracts.drain()
         if ok and contracts._norm_chain(got3) != contracts._norm_chain(exp):
             ctx.violate("chain:second-answer-differs:after-" + how.split("-at-")[0], f"chain of {m} asked again ({how}): {str(got3)[:500]} expected {str(exp)[:500]}", w3)
+        if S:
+            # ... and the question without any stable particle: everything that has a table is unfolded again
+            ok, got4 = ctx.guard("chain", w3, p.build_decay_chains, m)
+            contracts.drain()
+            exp4 = chains.ref_unfold(T, m, set())
+            if ok and contracts._norm_chain(got4) != contracts._norm_chain(exp4):
+                ctx.violate("chain:stable-set-of-a-call-that-went-wrong-still-in-force", f"chain of {m} without stable particles, after a call with S={sorted(S)} that went wrong ({how}): "
+                            f"{str(got4)[:500]} expected {str(exp4)[:500]}", w3)
     elif ctx.rng.random() < 0.2:
         # the same question once more, after the caller edited the first answer (or had the modes expanded in between): the same unfolding again
         how = "answer-edited" if (ctx.rng.random() < 0.6 or workload == "corpus") else "modes-expanded"
